@@ -109,6 +109,10 @@ func partsOf(lets []ref.Cmd, body []ref.Cmd, names map[string]string) ([]c11Part
 			addText(s[last:])
 		case "sp":
 			addText(" ")
+		case "lb":
+			addText("{")
+		case "rb":
+			addText("}")
 		case "print":
 			key := "print:" + gen.PrintExpr(c.Expr) + gen.PrintDirectives(c.Directives)
 			v, err := valueOf(c)
